@@ -200,6 +200,10 @@ fn generate(rng: &mut Rng) -> C14Sc {
         if rng.chance(1, 3) {
             spec.locale = super::c03::gen_locale(rng);
         }
+        // (odd but legal locale strings on the connections that get as far as a localized message)
+        if matches!(role, Role::StopsAfter { .. } | Role::EchoForever | Role::NeverReads { .. }) && rng.chance(1, 6) {
+            spec.locale = (*rng.pick(&["_US", "_", "__", "de_", "a_b_c", "abcdefghijklmno\u{e9}xyz", ""])).to_string();
+        }
         if proxy.is_some() {
             let src: std::net::SocketAddr = effective.parse().unwrap();
             let dst: std::net::SocketAddr = "192.0.2.200:25565".parse().unwrap();
